@@ -3,6 +3,7 @@ package main
 // Evaluation of contract expressions in a symbolic state.
 
 import (
+	"sort"
 	"fmt"
 	"go/constant"
 	"go/types"
@@ -258,6 +259,19 @@ func (env *Env) ident(name string) SV {
 		return SV{T: BigLit(new(big.Int).Neg(pow2(31)))}
 	case "MaxUint64":
 		return SV{T: BigLit(new(big.Int).Sub(pow2(64), big.NewInt(1)))}
+	}
+	// a local of this function that was never written on this path (declared in a branch not
+	// taken): an unconstrained value, so only clauses that guard its use can be proved
+	if env.x.fn != nil && env.fn == env.x.fn {
+		for _, b := range env.x.fn.Blocks {
+			for _, in := range b.Instrs {
+				if a, ok := in.(*ssa.Alloc); ok && a.Comment == name {
+					t := derefType(a.Type())
+					v := env.x.freshVar("dead_"+name, sortOfStatic(t))
+					return SV{T: v, Ty: t}
+				}
+			}
+		}
 	}
 	return env.fail("unknown identifier %q", name)
 }
@@ -862,6 +876,130 @@ func (env *Env) call(e *Expr) SV {
 			return env.fail("unknown type %s", e.Args[1].Lit)
 		}
 		return SV{T: x.unbox(arg(0).T, t), Ty: t}
+	case "done":
+		// the Done channel of a context (a function of the context value, as in ext.go)
+		theU.DeclFunc("ctxdone", SInt, SInt)
+		return SV{T: App("ctxdone", SInt, arg(0).T), Ty: types.NewChan(types.RecvOnly, types.NewStruct(nil, nil))}
+	case "bound":
+		// bound(closure, "name"): the current value of the variable a closure made by this
+		// function captured (by reference) under that name
+		if len(e.Args) != 2 || e.Args[1].Kind != "str" {
+			return env.fail("bound needs a closure and a variable name")
+		}
+		// the value may or may not be (provably) one of the closures made on this path: an
+		// if-then-else over the candidates, unconstrained otherwise
+		var keys []string
+		for k := range st.clos {
+			keys = append(keys, k)
+		}
+		sort.Strings(keys)
+		var res *Term
+		var rty types.Type
+		for _, k := range keys {
+			cv := st.clos[k]
+			if cv.Fn == nil || cv.T == nil {
+				continue
+			}
+			for i, fv := range cv.Fn.FreeVars {
+				if fv.Name() != e.Args[1].Lit || i >= len(cv.Binds) {
+					continue
+				}
+				b := cv.Binds[i]
+				t := derefType(fv.Type())
+				var val *Term
+				if b.Addr != nil {
+					val = x.load(st, b.Addr)
+				} else if a := x.ptrAddr(st, b, fv.Type()); a != nil {
+					val = x.load(st, a)
+				}
+				if val == nil {
+					continue
+				}
+				if res == nil {
+					res = x.freshVar("bound_"+fv.Name(), val.Sort)
+					rty = t
+				}
+				if val.Sort != res.Sort {
+					continue
+				}
+				res = Ite(Eq(arg(0).T, cv.T), val, res)
+			}
+		}
+		if res == nil && x.fn != nil {
+			// a path on which the closure was never made: the value is unconstrained
+			for _, af := range x.fn.AnonFuncs {
+				for _, fv := range af.FreeVars {
+					if fv.Name() == e.Args[1].Lit && res == nil {
+						rty = derefType(fv.Type())
+						res = x.freshVar("bound_"+fv.Name(), sortOfStatic(rty))
+					}
+				}
+			}
+		}
+		if res == nil {
+			return env.fail("bound: no closure made on this path captures a variable %s", e.Args[1].Lit)
+		}
+		return SV{T: res, Ty: rty}
+	case "pure":
+		// pure("pkg.Func", args...): the value of a module function with a `pure` contract
+		// over scalar parameters - the same uninterpreted application the code's calls get
+		if len(e.Args) == 0 || e.Args[0].Kind != "str" {
+			return env.fail("pure needs a function name")
+		}
+		var callee *ssa.Function
+		for _, f := range x.P.ModFuncs {
+			if f.Signature.Recv() != nil || f.Parent() != nil {
+				continue
+			}
+			if fnPkg(f).Name()+"."+f.Name() == e.Args[0].Lit || (fnPkg(f) == env.pkg && f.Name() == e.Args[0].Lit) {
+				callee = f
+			}
+		}
+		if callee == nil {
+			return env.fail("pure: unknown function %s", e.Args[0].Lit)
+		}
+		ct := x.P.Contracts[callee]
+		if ct == nil || !ct.Pure || len(callee.Params) != len(e.Args)-1 {
+			return env.fail("pure: %s has no pure contract with %d parameters", e.Args[0].Lit, len(e.Args)-1)
+		}
+		var ats []*Term
+		var avs []Val
+		var names []string
+		var tys []types.Type
+		for i := range callee.Params {
+			av := arg(i + 1)
+			if av.T == nil {
+				return env.fail("pure: argument %d has no value", i+1)
+			}
+			t := av.T
+			if want := sortOfStatic(callee.Params[i].Type()); t.Sort != want && want == SReal && t.Sort == SInt {
+				t = ToReal(t)
+			}
+			ats = append(ats, t)
+			avs = append(avs, Val{T: t})
+			names = append(names, callee.Params[i].Name())
+			tys = append(tys, callee.Params[i].Type())
+		}
+		app := x.pureApp(callee, ats)
+		if app == nil {
+			return env.fail("pure: %s is not a function of scalars", e.Args[0].Lit)
+		}
+		rt := callee.Signature.Results().At(0).Type()
+		cenv := x.callEnv(st, st, callee, names, tys, avs)
+		cenv.binds["result"] = specBinding{Val{T: app}, rt}
+		cenv.binds["result0"] = specBinding{Val{T: app}, rt}
+		st.add(rangeFacts(app, rt)...)
+		for _, en := range ct.Ensures {
+			if en.AssumeScoped && len(en.Props) > 0 && x.prop != "" && !hasProp(en.Props, x.prop) {
+				continue
+			}
+			t := cenv.eval(en.Expr)
+			if cenv.err != nil {
+				return env.fail("in contract of %s: %v", relName(callee), cenv.err)
+			}
+			st.add(t.T)
+		}
+		return SV{T: app, Ty: rt}
 	case "fnof":
 		theU.DeclFunc("fnof", SInt, SInt)
 		return SV{T: App("fnof", SInt, arg(0).T), Ty: it}
